@@ -14,6 +14,7 @@ import (
 	"net/http"
 	"net/netip"
 	"net/url"
+	"os"
 	"strings"
 	"testing"
 	"time"
@@ -175,7 +176,6 @@ func zzC16Request(in *zzC16In, rng *rand.Rand, reqID uint64, confName string) (p
 	return pctx, concrete, nil
 }
 
-
 // zzC16Live is ONE long-lived server that is reconfigured (real Prepare) when
 // the configured server name / strict flag of the next vector differs from
 // the current ones.  The ClientID is observed through the real read path
@@ -185,7 +185,21 @@ type zzC16Live struct {
 	host   string
 	strict bool
 	n      uint64
+	total  uint64
 	prep   int
+
+	// hist is the history since the start of the previous proxy epoch: what
+	// is needed to reproduce a history-dependent outcome on a fresh server.
+	hist       []zzC16Step
+	epochStart int
+}
+
+// zzC16Step is one step of a history: a request (abstract input plus the seed
+// of its concretisation) or a reconfiguration that changes nothing.
+type zzC16Step struct {
+	Reconf bool    `json:"reconf,omitempty"`
+	In     zzC16In `json:"in"`
+	Seed   int64   `json:"seed"`
 }
 
 func zzC16NewLive(t *testing.T) (l *zzC16Live) {
@@ -206,13 +220,44 @@ func zzC16NewLive(t *testing.T) (l *zzC16Live) {
 	return &zzC16Live{srv: srv}
 }
 
-// nextID returns request identifiers that are unique as 64-bit numbers but
-// collide in their low 32 bits every 509 requests, as the identifiers of a
-// long-running proxy eventually do.
+// nextID returns request identifiers as dnsproxy documents them: "unique
+// across requests processed by a single Proxy instance".  Server.Prepare
+// creates a new Proxy, whose counter starts again, so the identifiers start
+// again after every (re)configuration.  Within one instance they are unique as
+// 64-bit numbers but collide in their low 32 bits every 509 requests, as the
+// identifiers of a long-running proxy eventually do.
 func (l *zzC16Live) nextID() (id uint64) {
 	l.n++
+	l.total++
 
 	return (l.n % 509) | ((l.n / 509) << 32)
+}
+
+// newEpoch is called after every real Prepare.
+func (l *zzC16Live) newEpoch() {
+	l.n = 0
+	l.prep++
+	l.hist = append([]zzC16Step(nil), l.hist[l.epochStart:]...)
+	l.epochStart = len(l.hist)
+}
+
+// reconf is the environment action Reconfigure of ClientID.tla: the same
+// configuration is applied again (as any POST /control/dns_config does).
+func (l *zzC16Live) reconf() (err error) {
+	if l.prep == 0 {
+		return nil
+	}
+
+	conf := l.srv.conf
+	err = l.srv.Prepare(&conf)
+	if err != nil {
+		return fmt.Errorf("reconfiguring: %w", err)
+	}
+
+	l.newEpoch()
+	l.hist = append(l.hist, zzC16Step{Reconf: true})
+
+	return nil
 }
 
 func (l *zzC16Live) configure(host string, strict bool) (err error) {
@@ -228,17 +273,28 @@ func (l *zzC16Live) configure(host string, strict bool) (err error) {
 	}
 
 	l.host, l.strict = host, strict
-	l.prep++
+	l.newEpoch()
 
 	return nil
 }
 
 // run concretises one abstract input and drives it through the live server.
 func (l *zzC16Live) run(in *zzC16In, rng *rand.Rand) (out zzC16Out, concrete string, err error) {
+	return l.runSeeded(in, rng.Int63())
+}
+
+// runSeeded is run with the concretisation fixed by seed, so that a history
+// can be replayed request for request.
+func (l *zzC16Live) runSeeded(in *zzC16In, seed int64) (out zzC16Out, concrete string, err error) {
 	if err = l.configure(zzC16Name(in.Host), in.Strict); err != nil {
 		return out, "", err
 	}
 
+	if len(l.hist) < 20000 {
+		l.hist = append(l.hist, zzC16Step{In: *in, Seed: seed})
+	}
+
+	rng := rand.New(rand.NewSource(seed))
 	pctx, concrete, err := zzC16Request(in, rng, l.nextID(), zzC16Name(in.Host))
 	if err != nil {
 		return out, concrete, err
@@ -261,6 +317,26 @@ func (l *zzC16Live) run(in *zzC16In, rng *rand.Rand) (out zzC16Out, concrete str
 	}
 
 	return zzC16Out{K: "id", V: dctx.clientID}, concrete, nil
+}
+
+// zzC16ReplayHistory runs hist on a fresh server and returns the outcome of its
+// last request.
+func zzC16ReplayHistory(t *testing.T, hist []zzC16Step) (out zzC16Out, concrete string, err error) {
+	fresh := zzC16NewLive(t)
+	for i := range hist {
+		st := &hist[i]
+		if st.Reconf {
+			err = fresh.reconf()
+		} else {
+			out, concrete, err = fresh.runSeeded(&st.In, st.Seed)
+		}
+
+		if err != nil {
+			return out, concrete, err
+		}
+	}
+
+	return out, concrete, nil
 }
 
 func zzC16Admissible(v *zzC16Vec, got zzC16Out) (ok bool) {
@@ -309,14 +385,54 @@ func TestZZVerifC16Replay(t *testing.T) {
 		_, _ = fmt.Sscanf(v, "%d", &passes)
 	}
 
+	// Replay of one stored history (./check C16 --replay of a history-dependent
+	// record).
+	if hp := zzGetenv("VERIF_C16_HISTORY"); hp != "" {
+		raw, err := os.ReadFile(hp)
+		if err != nil {
+			t.Fatalf("reading history: %v", err)
+		}
+
+		rec := &struct {
+			History []zzC16Step `json:"history"`
+			Want    []zzC16Out  `json:"want"`
+		}{}
+		if err = json.Unmarshal(raw, rec); err != nil || len(rec.History) == 0 {
+			t.Fatalf("bad history record: %v", err)
+		}
+
+		last := rec.History[len(rec.History)-1]
+		v := &zzC16Vec{In: last.In, Out: rec.Want}
+		got, conc, _ := zzC16ReplayHistory(t, rec.History)
+		if !zzC16Admissible(v, got) {
+			w.put(map[string]any{"kind": "bad", "in": v.In, "want": v.Out, "got": got, "concrete": conc, "how": "stored history replayed on a fresh server"})
+		}
+
+		w.put(map[string]any{"kind": "summary", "n": len(rec.History), "bad": 0, "flaky": 0, "passes": 1})
+
+		return
+	}
+
 	live := zzC16NewLive(t)
-	n, bad, flaky, more := 0, 0, 0, 0
+	n, bad, flaky, more, reconfs := 0, 0, 0, 0, 0
 	for pass := 0; pass < passes; pass++ {
 		rng.Shuffle(len(keys), func(i, j int) { keys[i], keys[j] = keys[j], keys[i] })
 		for _, k := range keys {
 			vs := groups[k]
 			rng.Shuffle(len(vs), func(i, j int) { vs[i], vs[j] = vs[j], vs[i] })
 			for _, v := range vs {
+				// ClientID.tla, Reconfigure: now and then the configuration in
+				// force is applied again.  Nothing the outcome depends on
+				// changes, but the proxy is a new one and its request
+				// identifiers start again.
+				if rng.Intn(120) == 0 {
+					if err := live.reconf(); err != nil {
+						t.Fatalf("reconf: %v", err)
+					}
+
+					reconfs++
+				}
+
 				n++
 				got, conc, err := live.run(&v.In, rng)
 				if err != nil {
@@ -337,28 +453,51 @@ func TestZZVerifC16Replay(t *testing.T) {
 					continue
 				}
 
-				// Reproduce: again on the live server (same history) and alone
-				// on a fresh server.
-				got2, conc2, _ := live.run(&v.In, rng)
+				// Reproduce: alone on a fresh server; if it is admissible
+				// there, the history since the start of the previous proxy
+				// epoch replayed on a fresh server; and again on the live
+				// server.
+				hist := append([]zzC16Step(nil), live.hist...)
 				fresh := zzC16NewLive(t)
 				got3, conc3, _ := fresh.run(&v.In, rand.New(rand.NewSource(1)))
-				switch {
-				case !zzC16Admissible(v, got3):
+				if !zzC16Admissible(v, got3) {
 					bad++
 					w.put(map[string]any{"kind": "bad", "in": v.In, "want": v.Out, "got": got3, "concrete": conc3, "how": "alone on a fresh server"})
-				case !zzC16Admissible(v, got2):
+
+					continue
+				}
+
+				got4, conc4, herr := zzC16ReplayHistory(t, hist)
+				if herr == nil && !zzC16Admissible(v, got4) {
+					bad++
+					rec := map[string]any{"kind": "bad", "in": v.In, "want": v.Out, "got": got4, "concrete": conc4,
+						"how": fmt.Sprintf("history-dependent: reproduced by replaying the last %d steps (requests and reconfigurations since the start of the previous proxy epoch) on a fresh server; admissible alone on a fresh server", len(hist))}
+					if len(hist) <= 4000 {
+						rec["history"] = hist
+					}
+
+					w.put(rec)
+
+					continue
+				}
+
+				got2, conc2, _ := live.run(&v.In, rng)
+				if !zzC16Admissible(v, got2) {
 					bad++
 					w.put(map[string]any{"kind": "bad", "in": v.In, "want": v.Out, "got": got2, "concrete": conc2,
-						"how": fmt.Sprintf("history-dependent: on the live server after %d requests and %d reconfigurations; admissible alone on a fresh server", live.n, live.prep)})
-				default:
-					flaky++
-					w.put(map[string]any{"kind": "flaky", "in": v.In, "got": got, "concrete": conc})
+						"how": fmt.Sprintf("history-dependent: twice on the live server after %d requests and %d reconfigurations; admissible alone on a fresh server", live.total, live.prep)})
+
+					continue
 				}
+
+				flaky++
+				w.put(map[string]any{"kind": "flaky", "in": v.In, "got": got, "concrete": conc})
 			}
 		}
 	}
 
-	w.put(map[string]any{"kind": "summary", "n": n, "bad": bad, "flaky": flaky, "not_reproduced_beyond_cap": more, "reconfigurations": live.prep, "passes": passes})
+	w.put(map[string]any{"kind": "summary", "n": n, "bad": bad, "flaky": flaky, "not_reproduced_beyond_cap": more,
+		"reconfigurations": live.prep, "same_config_reconfigurations": reconfs, "passes": passes})
 }
 
 // ---------------------------------------------------------------- direction B
